@@ -753,14 +753,19 @@ class ConstEval:
     `static const` scalars, unary/binary operators, casts, sizeof of simple
     types.  Arithmetic follows the C type recorded on each node."""
 
-    def __init__(self, prog, env=None):
+    def __init__(self, prog, env=None, env_text=None):
         self.prog = prog
         self.env = env or {}
+        self.env_text = env_text or {}      # source text of an lvalue expression -> value (`buf[i]`, `*p`, `x->f`)
 
     def eval(self, n):
         n0 = n
         k = n.get("kind")
         ks = kids(n)
+        if self.env_text and k in ("ArraySubscriptExpr", "UnaryOperator", "MemberExpr", "DeclRefExpr"):
+            t = expr_str(n)
+            if t in self.env_text:
+                return self.env_text[t]
         if k == "ConstantExpr" and "value" in n:
             try:
                 return int(n["value"])
